@@ -7,6 +7,7 @@ CONSTANTS
   MaxSegs = 2
   EmptySegsUpTo = 4
   UseLen = 7
+  DeepLen = 6
   PairLen = 5
 INVARIANT TypeOK
 INVARIANT CigarLaw
